@@ -5,6 +5,7 @@
 PATCH="$(readlink -f "$1")"; P="$2"; TIER="${3:-quick}"
 HERE="$(cd "$(dirname "$0")/.." && pwd)"
 exec 8>"${TMPDIR:-/tmp}/dvcheck-repo.lock"; flock 8
+git -C /repo diff --quiet || { echo "/repo has uncommitted changes: refusing (they would be lost by the revert)"; exit 2; }
 git -C /repo apply --check "$PATCH" || { echo "patch does not apply"; exit 2; }
 git -C /repo apply "$PATCH"
 DVCHECK_REPO_LOCK_HELD=1 "$HERE/run.sh" "$P" "$TIER"; code=$?
